@@ -163,6 +163,11 @@ mut('resync-eof-last-branch', 'ObjectHeaderBase.cpp', [["\t\t\t\t\tif (is.eof())
                                                         ["\t\t\t\t\t\t/* do not seek as we did not find a single char */\n", "\t\t\t\t\t\t/* do not seek as we did not find a single char */\n\t\t\t\t\t\tif (is.eof()) {\n\t\t\t\t\t\t\tthrow Exception(\"ObjectHeaderBase::read(): End of File.\");\n\t\t\t\t\t\t}\n"]],
     ['C10', 'C09'], ['S1|loop|eof-every-retry'], 'input ending in a partial signature makes the worker spin')
 
+mut('close-overwrites-caller-field', 'File.cpp', [["        fileStatistics.objectCount = currentObjectCount;", "        fileStatistics.objectCount = currentObjectCount;\n        fileStatistics.compressionLevel = static_cast<uint8_t>(compressionLevel);"]],
+    ['C05'], ['H3|fileStatistics'], 'a header field supplied by the caller is replaced at close()')
+mut('queue-capacity-off-by-one', 'ObjectQueue.cpp', [["        static_cast<uint32_t>(m_queue.size()) < m_bufferSize;", "        static_cast<uint32_t>(m_queue.size()) <= m_bufferSize;"]],
+    ['C16'], ['Q3|write|capacity-exact'], 'the queue admits one object more than its capacity')
+
 # ------------------------------------------------------------------ benign refactorings (must stay silent)
 ALL_LAYOUT = ['C01', 'C02', 'C03', 'C10', 'C14']
 ben('reorder-size-terms', 'AppText.cpp', [["        sizeof(source) +\n        sizeof(reservedAppText1) +", "        sizeof(reservedAppText1) +\n        sizeof(source) +"]], ALL_LAYOUT)
